@@ -12,6 +12,8 @@
     dirfilesat <dirspelling> <kind> <prefix> <rels>            DirFiles called with a spelling of /S/c19root
     hashdirat <dirspelling> <kind> <prefix> <rels> <contents>  HashDir called with a spelling of /S/c19root
                                                   (`/S` stands for the scratch directory the Go side creates)
+    dirfilesrel <cwd> <dir> <kind> <prefix> <rels>             DirFiles called with the relative name <dir> of a directory
+    hashdirrel <cwd> <dir> <kind> <prefix> <rels> <contents>   after chdir(<cwd>) (<cwd> = /S, /S/c19root, /S/c19root/sub ...)
     hashzip <names> <contents>                    HashZip with Hash1 on the archive with these entries, in order
     hashmodzip <path> <version> <rels> <contents>   HashZip of zip.Create's archive for these files
     hashunzip <path> <version> <rels> <contents>    HashDir (prefix path@version) of the directory zip.Unzip extracts that archive to
@@ -49,6 +51,11 @@ def sha : Bytes → Bytes := Sha256.sha256
 def scratchFs (root : Root) (p : Bytes) : Root :=
   if p == B "/S/c19root" then root else .missing
 
+/-- the same file system seen from the working directory `cwd` (an absolute path): a relative path is
+    resolved against `cwd` (`joinPath` cleans lexically; the scratch directory has no symbolic links) -/
+def relFs (root : Root) (cwd p : Bytes) : Root :=
+  if p.head? == some slash then scratchFs root p else scratchFs root (joinPath cwd p)
+
 def handle : Handler
   | "sort", [l] => do let l ← hxList l; pure (xhList (sortStrings l))
   | "clean", [p] => do let p ← hx p; pure (xh (clean p))
@@ -75,6 +82,14 @@ def handle : Handler
       let dir ← hx dir; let pfx ← hx pfx; let rels ← hxList rels; let cs ← hxList cs
       let root ← parseRoot kind (rels.zip cs)
       pure (showRes (hashDirAt sha (scratchFs root) dir pfx))
+  | "dirfilesrel", [cwd, dir, kind, pfx, rels] => do
+      let cwd ← hx cwd; let dir ← hx dir; let pfx ← hx pfx; let rels ← hxList rels
+      let root ← parseRoot kind (rels.map fun r => (r, []))
+      pure (showResList (dirFilesAt (relFs root cwd) dir pfx))
+  | "hashdirrel", [cwd, dir, kind, pfx, rels, cs] => do
+      let cwd ← hx cwd; let dir ← hx dir; let pfx ← hx pfx; let rels ← hxList rels; let cs ← hxList cs
+      let root ← parseRoot kind (rels.zip cs)
+      pure (showRes (hashDirAt sha (relFs root cwd) dir pfx))
   | "hashzip", [ns, cs] => do
       let ns ← hxList ns; let cs ← hxList cs
       pure (showRes (hashZip sha (ns.zip cs)))
